@@ -56,7 +56,7 @@ def gen_store(ctx: Ctx) -> tuple[list[dict[str, Any]], list[tuple[str, str]]]:
 
 def gen_filter(ctx: Ctx, traces: list[tuple[str, str]]) -> dict[str, list[str]] | None:
     r = ctx.rng
-    kind = r.choice(["none", "none", "empty", "subset", "subset", "one_name", "absent", "all"])
+    kind = r.choice(["none", "none", "empty", "subset", "subset", "one_name", "absent", "all", "no_ids", "some_no_ids"])
     ctx.tick("filter_" + kind)
     if kind == "none":
         return None
@@ -70,6 +70,17 @@ def gen_filter(ctx: Ctx, traces: list[tuple[str, str]]) -> dict[str, list[str]] 
     if kind == "one_name":
         n = r.choice(traces)[0]
         return {n: [j for m, j in traces if m == n][: r.choice([1, 2, 5])]}
+    if kind == "no_ids":
+        # a non-empty map every name of which selects no trace id: nothing is streamed
+        names = sorted({n for n, _ in traces})
+        return {n: [] for n in names[: r.choice([1, 2, len(names)])]}
+    if kind == "some_no_ids":
+        f0: dict[str, list[str]] = {}
+        for n, j in traces:
+            f0.setdefault(n, [])
+            if r.random() < 0.4:
+                f0[n].append(j)
+        return f0
     if kind == "absent":
         return {"nosuch": ["t0"], traces[0][0]: ["nosuch-id"]}
     f = {}
@@ -108,7 +119,7 @@ def run(ctx: Ctx) -> None:
     ctx.cov["rule"] = (
         "seeded stores: 1-4 workflow names (case, space, non-ASCII, prefix-of-each-other variants), 1-4 traces per name of "
         "1-5 spans, trace ids optionally shared between names, ingestion order shuffled; batch sizes {1,2,3,1000}; "
-        "filters {none, empty map, subset of (name, id) pairs, one name, absent name/id, all}. non-trivial: >= 2 names "
+        "filters {none, empty map, subset of (name, id) pairs, one name, absent name/id, all, names with no ids}. non-trivial: >= 2 names "
         "or >= 3 traces and a filter that selects some but not all traces, or interleaved ingestion"
     )
     cases = []
